@@ -62,8 +62,9 @@ PARTIAL = [
     'no delete of an absent key); that this never happens for real grids is checked per case by the extracted model '
     '(DUPKEY / NOTFOUND counters), not proved',
     'float-level facts (bearings are NaN-free and strictly ordered enter < centre < exit, min3 <= interpolated gradient, '
-    'closed-span test succeeds for active nodes) are premises, checked per case by the driver comparing the sweep with both '
-    'reference definitions (SPEC / FULL), not proved',
+    'closed-span test succeeds for active nodes, binary64 < is a strict weak order off NaN) are premises of the theorems; the '
+    'decidable ones (NaN-free bearings, wf_span, own_span, phase1_sound) are evaluated by the extracted model on every '
+    'generated case (PREM flag, expected ok) and the sweep is compared with both reference definitions (SPEC / FULL); not proved',
     'vertical angle range is proved for the real-valued formula, not for its binary64 evaluation',
 ]
 LEVEL_TEXT = ('Proved for all inputs (any grid size, any terrain/observer/heights, over abstract ordered bearing/key/gradient '
@@ -357,7 +358,8 @@ def compare_model(ctx, pending):
         rows, cols = len(case['grid']), len(case['grid'][0])
         body = mo[3:]
         m_part, rest = body.split(' SPEC ')
-        s_part, f_part = rest.split(' FULL ')
+        s_part, rest = rest.split(' FULL ')
+        f_part, p_part = rest.split(' PREM ')
         mg = parse_grid(m_part.split(), rows, cols)
         if mg is None:
             ctx.violation('correspondence', 'model returned a malformed grid', dict(case))
@@ -370,6 +372,11 @@ def compare_model(ctx, pending):
         if f_part.strip() != 'same':
             ctx.violation('correspondence', 'extracted sweep differs from extracted viewshed_spec_full '
                           '(contradicts C05_sweep_eq_spec_full)', dict(case))
+        if p_part.strip() != 'ok':
+            # NaN-free bearings / wf_span / own_span / phase1_sound evaluated by the extracted model on this input
+            ctx.count('model/theorem-premise-failed')
+            ctx.violation('correspondence', 'a decidable premise of C05_sweep_eq_spec (NaN-free bearings, wf_span, own_span, '
+                          'phase1_sound) is false in binary64 on this input', dict(case))
         if s_part.strip() != 'same':
             # premises phase1_sound / own_span of the clean statement failed on this input
             ctx.count('model/clean-spec-premise-failed')
@@ -560,7 +567,7 @@ def check_tree_case(ctx, case, real=None):
 
 def run_tree_stream(ctx):
     rng = ctx.rng
-    nseq = 120 if ctx.quick() else 1500
+    nseq = 120 if ctx.quick() else 3000
     pending = []
     for s in range(nseq):
         pattern = TREE_PATTERNS[s % len(TREE_PATTERNS)]
@@ -699,9 +706,10 @@ def gen_cases(ctx):
         for (vr, vc) in observer_cells(R, C, not quick):
             fams = FAMILIES if not quick else rng.sample(FAMILIES, 7)
             for fam in fams:
-                yield mk_case(rng, fam, R, C, vr, vc)
+                for _ in range(1 if quick else 2):
+                    yield mk_case(rng, fam, R, C, vr, vc)
     # larger grids: deeper status trees, long monotone runs
-    nbig = 80 if quick else 600
+    nbig = 80 if quick else 1500
     for i in range(nbig):
         R, C = rng.randint(8, 12), rng.randint(8, 15)
         fam = ['ramp', 'checker', 'peak', 'pit', 'dec', 'plateau', 'stair', 'ring'][i % 8]
